@@ -55,6 +55,10 @@ def exnCode (w : World τ) (e : ExnId) : List Int :=
   | .concurrent cs => 3 :: cs.flatMap (w.exnCode1 ·)
   | _ => w.exnCode1 e
 
+/-- number of tasks spawned in scope `s` that are not done -/
+def notDone (w : World τ) (s : ScopeId) : Int :=
+  ((w.tasks.toList.filter (fun t => t.parent == s && t.result.isNone)).length : Int)
+
 /-- first part of `Scope._close_scope` (context.py:253-257) and entry into the closing loop -/
 def beginClose (w : World τ) (a : ActId) (fs : List (Frame τ)) (s : ScopeId)
     (orig : Option ExnId) (graceful : Bool) : World τ :=
@@ -63,7 +67,7 @@ def beginClose (w : World τ) (a : ActId) (fs : List (Frame τ)) (s : ScopeId)
   let (w, ok) := match sc.notification, sc.interrupt, sc.activity with
     | some n, some i, some act => w.unsubscribe n act i
     | _, _, _ => (w, true)
-  if !ok then (w.emitScope a s "sexit" [sc.name, sc.inst, 1]).raiseNew a fs .valueError
+  if !ok then (w.emitScope a s "sexit" [sc.name, sc.inst, 1, w.notDone s]).raiseNew a fs .valueError
   else
     let w := w.setScope s (fun x => { x with interruptable := false })
     let w := w.revoke sc.cancelSelf
@@ -88,7 +92,7 @@ def continueClose (w : World τ) (a : ActId) (fs : List (Frame τ)) (s : ScopeId
         let w := w.setAct r (fun x => { x with status := .running })
         let (w, ge) := w.newExn .genExit
         { w with ctl := (r, .raise ge) :: w.ctl }
-      | .running => (w.emitScope a s "sexit" [(w.scope s).name, (w.scope s).inst, 1]).raiseNew a fs .valueError
+      | .running => (w.emitScope a s "sexit" [(w.scope s).name, (w.scope s).inst, 1, w.notDone s]).raiseNew a fs .valueError
       | _ => w.retTo a (fr :: fs) .unit
   | [] =>
     if !volDone then
@@ -96,7 +100,7 @@ def continueClose (w : World τ) (a : ActId) (fs : List (Frame τ)) (s : ScopeId
       w.retTo a (.scopeClose s (w.scope s).volatileChildren reason' true orig graceful :: fs) .unit
     else
       let (w, p) := w.propagateExceptions s orig
-      let sx (w : World τ) (code : Int) : World τ := w.emitScope a s "sexit" [(w.scope s).name, (w.scope s).inst, code]
+      let sx (w : World τ) (code : Int) : World τ := w.emitScope a s "sexit" [(w.scope s).name, (w.scope s).inst, code, w.notDone s]
       match p, orig with
       | .swallow, _ => (sx w 0).retTo a fs .unit
       | .reraise, some e => (sx w 1).raiseTo a fs e
@@ -216,6 +220,8 @@ def borrowEnter (w : World τ) (a : ActId) (fs : List (Frame τ)) (r : Name) (am
       else
         (w.setLevels rid (vecSub rs.levels amounts)).doPostpone a (.borrowRemoved rid b body :: fs)
 
+def tArgs (t : τ) : List Int := [(toPair t).1, (toPair t).2]
+
 def truthy (x : Option τ) : Bool :=
   match x with
   | some v => !(beq v (zero : τ))
@@ -227,19 +233,33 @@ def execStmt (w : World τ) (a : ActId) (fs : List (Frame τ)) : Stmt τ → Wor
   | .log k => (w.emit a "log" [k]).retTo a fs .unit
   | .logNow => (w.emit a "now" []).retTo a fs .unit
   | .sleep d =>
+    let w := w.emit a "abegin" (0 :: tArgs d)
+    let fs := .sleepMark :: fs
     if lt d (zero : τ) then w.raiseNew a fs (.assertion 3)          -- Time.__add__: delay must be >= 0
     else if beq d (zero : τ) then w.doPostpone a fs                  -- Instant
     else
       let (w, c) := w.newCond (.delay d)
       w.doNotifAwait a fs c
   | .awaitC c =>
+    let desc : List Int := match c with
+      | .after t => 1 :: tArgs t
+      | .moment t => 2 :: tArgs t
+      | .before t => 3 :: tArgs t
+      | .eternity => [4, 0, 1]
+      | .instant => [5, 0, 1]
+      | _ => [9, 0, 1]
     match w.buildCond c with
-    | some (w, cid) => w.doCondAwait a (.awaitMark cid :: fs) cid
+    | some (w, cid) => (w.emit a "abegin" desc).doCondAwait a (.awaitMark cid :: fs) cid
+    | none => w.raiseNew a fs .notImplemented
+  | .logCond c =>
+    match w.buildCond c with
+    | some (w, cid) => (w.emit a "alg" [if w.eval cid then 1 else 0, if w.evalSpec c then 1 else 0]).retTo a fs .unit
     | none => w.raiseNew a fs .notImplemented
   | .setFlag f b =>                                                   -- flag.py Flag.set
     match lookup w.flagIds f with
     | none => (w.emit a "unbound" []).retTo a fs .unit
     | some c =>
+      let w := w.emit a "setflag" [f, if b then 1 else 0]
       match (w.cond c).kind with
       | .flag v inv =>
         let w :=
@@ -277,7 +297,7 @@ def execStmt (w : World τ) (a : ActId) (fs : List (Frame τ)) : Stmt τ → Wor
         | some n, some i => w.subscribe n a i
         | _, _ => some w
       match w' with
-      | some w => (w.emitScope a sid "senter" [name, (w.scope sid).inst]).retTo a (.seq body :: .scopeBody sid :: fs) .unit
+      | some w => (w.emitScope a sid "senter" [name, (w.scope sid).inst, if notif.isSome then 1 else 0]).retTo a (.seq body :: .scopeBody sid :: fs) .unit
       | none => w.raiseNew a fs (.assertion 1)
   | .spawn scope task prog after at_ volatile =>                       -- context.py Scope.do
     match lookup w.scopeNames scope with
@@ -306,11 +326,16 @@ def execStmt (w : World τ) (a : ActId) (fs : List (Frame τ)) : Stmt τ → Wor
           let w := w.scheduleNow r none
           let w := if volatile then w.setScope sid (fun x => { x with volatileChildren := x.volatileChildren ++ [tid] })
                    else w.setScope sid (fun x => { x with children := x.children ++ [tid] })
-          (w.emitScope a sid "spawn" [(w.scope sid).inst, 1000 + tid, if volatile then 1 else 0]).retTo a fs .unit
+          (w.emitScope a sid "spawn" (([((w.scope sid).inst : Int), 1000 + (tid : Int), if volatile then 1 else 0] : List Int) ++
+            (match after, at_ with
+             | some d, _ => 1 :: tArgs d
+             | none, some t => 2 :: tArgs t
+             | none, none => [0, 0, 1]))).retTo a fs .unit
   | .cancel task tok =>                                                -- task.py Task.cancel
     match lookup w.taskNames task with
     | none => (w.emit a "unbound" []).retTo a fs .unit
     | some t =>
+      let w := w.emit a "cancel" [1000 + t, w.statusCode t]
       if (w.task t).result.isSome then w.retTo a fs .unit
       else if (w.act (w.task t).runner).status == .created then
         let (w, e) := w.newExn (.taskCancelled t tok)
@@ -392,8 +417,8 @@ def execStmt (w : World τ) (a : ActId) (fs : List (Frame τ)) : Stmt τ → Wor
     w.retTo a (.cIterLoop c key n body :: fs) .unit
   | .setTracked x v => (w.setTrackedValue x v).doPostpone a fs
   | .addTracked x v => (w.setTrackedValue x ((w.tracked.getD x default).value + v)).doPostpone a fs
-  | .borrow r amounts bind body => (w.emit a "breq" ((r : Int) :: amounts)).borrowEnter a (.borrowMark r :: fs) r amounts bind body false
-  | .claim r amounts bind body => (w.emit a "breq" ((r : Int) :: amounts)).borrowEnter a (.borrowMark r :: fs) r amounts bind body true
+  | .borrow r amounts bind body => (w.emit a "breq" ((r : Int) :: 0 :: amounts)).borrowEnter a (.borrowMark r :: fs) r amounts bind body false
+  | .claim r amounts bind body => (w.emit a "breq" ((r : Int) :: 1 :: amounts)).borrowEnter a (.borrowMark r :: fs) r amounts bind body true
   | .resChange r kind amounts =>                                       -- resource.py Resources.set/increase/decrease
     match lookup w.resNames r with
     | none => (w.emit a "unbound" []).retTo a fs .unit
@@ -433,9 +458,11 @@ def execStmt (w : World τ) (a : ActId) (fs : List (Frame τ)) : Stmt τ → Wor
           if lt (zero : τ) total then w.pipeWindowStart a fs p ident total thr (zero : τ)
           else (w.pipeFinish p ident).retTo a fs .unit
   | .interval period n body =>
+    let w := w.emit a "tbegin" (1 :: tArgs period)
     if lt period (zero : τ) then w.raiseNew a fs .valueError
     else w.tickNext a fs true period w.time n body
   | .delayIter period n body =>
+    let w := w.emit a "tbegin" (0 :: tArgs period)
     if lt period (zero : τ) then w.raiseNew a fs .valueError
     else w.tickNext a fs false period w.time n body
   | .collect progs =>                                                  -- _concurrent/basics.py collect
@@ -491,6 +518,8 @@ def stepRet (w : World τ) (a : ActId) (f : Frame τ) (fs : List (Frame τ)) (v 
     w.retTo a (.connStart c :: fs) .unit
   | .retTrue => w.retTo a fs (.bool true)
   | .awaitMark c => (w.emit a "awaited" [if w.eval c then 1 else 0]).retTo a fs .unit
+  | .sleepMark => (w.emit a "awaited" [1]).retTo a fs .unit
+  | .tickEnd => (w.emit a "tbodyend" []).retTo a fs .unit
   | .taskResult t quiet =>
     match (w.task t).result with
     | some (v, none) => (if quiet then w else w.emit a "taskret" [v]).retTo a fs (.int v)
@@ -507,6 +536,7 @@ def stepRet (w : World τ) (a : ActId) (f : Frame τ) (fs : List (Frame τ)) (v 
     else w.retTo a (.seq prog :: .taskPayload t :: fs) .unit
   | .taskDelay t prog => w.retTo a (.seq prog :: .taskPayload t :: fs) .unit
   | .taskPayload t =>
+    let w := w.emit a "tfin" [0]
     let w := w.setTask t (fun x => { x with result := some (valInt v, none) })
     ((w.childFinished t false).taskFinalize t).retTo a fs .unit
   | .scopeBody s =>                                                    -- context.py __aexit__, exc_type None
@@ -592,7 +622,7 @@ def stepRet (w : World τ) (a : ActId) (f : Frame τ) (fs : List (Frame τ)) (v 
     if lt transferred total then w.pipeWindowStart a fs p ident total thr transferred
     else (w.pipeFinish p ident).retTo a fs .unit
   | .tickWait isInt period _ rem body =>
-    (w.emit a "tick" []).retTo a (.seq body :: .tickBody isInt period w.time (rem - 1) body :: fs) .unit
+    (w.emit a "tick" []).retTo a (.seq body :: .tickEnd :: .tickBody isInt period w.time (rem - 1) body :: fs) .unit
   | .tickBody isInt period last rem body => w.tickNext a fs isInt period last rem body
   | .collectAwait todo acc =>
     let acc := match v with
@@ -631,9 +661,18 @@ def stepRaise (w : World τ) (a : ActId) (f : Frame τ) (fs : List (Frame τ)) (
         let sw := sw || (w.sig q.2).exn == e
         ((w.unsubscribe q.1 a q.2).1, sw)) (w, false)
     if swallowed then w.retTo a (.connStart c :: fs) .unit else w.raiseTo a fs e
-  | .retTrue | .awaitMark _ => w.raiseTo a fs e
+  | .retTrue | .awaitMark _ | .sleepMark | .tickEnd => w.raiseTo a fs e
   | .taskResult _ _ => w.raiseTo a fs e
   | .taskStart t _ _ _ | .taskDelay t _ | .taskPayload t =>            -- task.py:137-157
+    let started := match f with
+      | .taskPayload _ => true
+      | _ => false
+    let w := if !started then w else match w.exn e with
+      | .genExit => w.emit a "tfin" [2]
+      | .sig sg => (match (w.sig sg).kind with
+        | .cancelTask _ _ => w.emit a "tfin" [1]
+        | _ => w.emit a "tfin" (3 :: w.exnCode1 e))
+      | _ => w.emit a "tfin" (3 :: w.exnCode1 e)
     match w.exn e with
     | .genExit => ((w.childFinished t false).taskFinalize t).retTo a fs .unit
     | cls =>
@@ -657,7 +696,7 @@ def stepRaise (w : World τ) (a : ActId) (f : Frame τ) (fs : List (Frame τ)) (
       | _ => w
     w.beginClose a fs s (some e) false
   | .scopeExitSet s | .scopeExitWait s _ => w.beginClose a fs s (some e) true
-  | .scopeClose s .. => (w.emitScope a s "sexit" [(w.scope s).name, (w.scope s).inst, 1]).raiseTo a fs e
+  | .scopeClose s .. => (w.emitScope a s "sexit" [(w.scope s).name, (w.scope s).inst, 1, w.notDone s]).raiseTo a fs e
   | .tryBlock handlers =>
     match handlers.find? (fun h => h.1.any (fun p => patMatches p (w.exn e))) with
     | some h => (w.emit a "caught" (w.exnCode e)).retTo a (.seq h.2 :: fs) .unit
